@@ -44,6 +44,8 @@ def confirm_shell(prop, ab, wt, src, sid, patch):
     os.makedirs(dst, exist_ok=True)
     shutil.copy(patch, os.path.join(dst, "patch.diff"))
     shutil.copy(demo, os.path.join(dst, "demo.sh"))
+    if os.path.exists(os.path.join(src, "demo.rs")):
+        shutil.copy(os.path.join(src, "demo.rs"), os.path.join(dst, "demo.rs"))
     notes = open(os.path.join(src, "notes.md")).read() if os.path.exists(os.path.join(src, "notes.md")) else ""
     open(os.path.join(dst, "notes.md"), "w").write(notes)
     rec["breaks_property"] = prop
@@ -68,7 +70,8 @@ def main():
             wt = "/tmp/wt%s-%s" % (ab[1:], prop)
     patch = os.path.join(src, "patch.diff")
     demo = os.path.join(src, "demo.rs")
-    if not os.path.exists(demo) and os.path.exists(os.path.join(src, "demo.sh")):
+    if os.path.exists(os.path.join(src, "demo.sh")):
+        # a shell demonstration (build configuration, release profile, ...) takes precedence; it may use demo.rs
         return confirm_shell(prop, ab, wt, src, sid, patch)
     tname = "seed_demo_%s_%s" % (prop.lower(), ab.lower())
     tfile = os.path.join(wt, "tests", tname + ".rs")
